@@ -114,7 +114,19 @@ struct FragSpec {
     frag: usize,
     cuts: Vec<usize>,
     panic_at: Option<usize>,
+    /// class p: the stream's read() answers ONE call with this error when asked for the byte at that offset, then goes on
+    err_at: Option<(usize, std::io::ErrorKind)>,
 }
+
+const IO_KINDS: &[(&str, std::io::ErrorKind)] = &[
+    ("NotFound", std::io::ErrorKind::NotFound), ("PermissionDenied", std::io::ErrorKind::PermissionDenied), ("ConnectionRefused", std::io::ErrorKind::ConnectionRefused),
+    ("ConnectionReset", std::io::ErrorKind::ConnectionReset), ("ConnectionAborted", std::io::ErrorKind::ConnectionAborted), ("NotConnected", std::io::ErrorKind::NotConnected),
+    ("AddrInUse", std::io::ErrorKind::AddrInUse), ("BrokenPipe", std::io::ErrorKind::BrokenPipe), ("AlreadyExists", std::io::ErrorKind::AlreadyExists),
+    ("WouldBlock", std::io::ErrorKind::WouldBlock), ("InvalidInput", std::io::ErrorKind::InvalidInput), ("InvalidData", std::io::ErrorKind::InvalidData),
+    ("TimedOut", std::io::ErrorKind::TimedOut), ("WriteZero", std::io::ErrorKind::WriteZero), ("Interrupted", std::io::ErrorKind::Interrupted),
+    ("Unsupported", std::io::ErrorKind::Unsupported), ("UnexpectedEof", std::io::ErrorKind::UnexpectedEof), ("OutOfMemory", std::io::ErrorKind::OutOfMemory),
+    ("Other", std::io::ErrorKind::Other),
+];
 fn parse_frag(tok: Option<&str>) -> FragSpec {
     let mut sp = FragSpec::default();
     if let Some(t) = tok {
@@ -123,6 +135,10 @@ fn parse_frag(tok: Option<&str>) -> FragSpec {
             sp.cuts.sort();
         } else if let Some(k) = t.strip_prefix('p') {
             sp.panic_at = k.parse().ok();
+        } else if let Some(e) = t.strip_prefix('e') {
+            if let Some((k, kind)) = e.split_once('.') {
+                sp.err_at = IO_KINDS.iter().find(|(n, _)| *n == kind).and_then(|(_, kd)| k.parse().ok().map(|k| (k, *kd)));
+            }
         } else {
             sp.frag = t.parse().unwrap_or(0);
         }
@@ -145,6 +161,9 @@ impl<'a> FragReader<'a> {
         if let Some(c) = self.spec.cuts.iter().find(|c| **c > self.pos) {
             lim = lim.min(*c - self.pos);
         }
+        if let Some((k, _)) = self.spec.err_at {
+            if self.pos < k { lim = lim.min(k - self.pos); }
+        }
         if let Some(k) = self.spec.panic_at {
             if self.pos >= k && want > 0 {
                 panic!("the stream's read() panicked");
@@ -157,6 +176,13 @@ impl<'a> FragReader<'a> {
         self.pos += n;
         a
     }
+    /// the injected error, once, when the next byte to deliver is the one at its offset
+    fn injected(&mut self, want: usize) -> Option<std::io::Error> {
+        match self.spec.err_at {
+            Some((k, kind)) if self.pos >= k && want > 0 => { self.spec.err_at = None; Some(std::io::Error::from(kind)) }
+            _ => None,
+        }
+    }
     fn pending_now(&mut self) -> bool {
         self.polls += 1;
         (self.spec.frag % 2 == 1 || !self.spec.cuts.is_empty()) && self.polls % 2 == 0
@@ -164,6 +190,7 @@ impl<'a> FragReader<'a> {
 }
 impl<'a> std::io::Read for FragReader<'a> {
     fn read(&mut self, buf: &mut [u8]) -> std::io::Result<usize> {
+        if let Some(e) = self.injected(buf.len()) { return Err(e); }
         let a = self.take(buf.len());
         buf[..a.len()].copy_from_slice(a);
         Ok(a.len())
@@ -175,6 +202,7 @@ impl<'a> tokio::io::AsyncRead for FragReader<'a> {
             cx.waker().wake_by_ref();
             return std::task::Poll::Pending;
         }
+        if let Some(e) = self.injected(buf.remaining()) { return std::task::Poll::Ready(Err(e)); }
         let a = self.take(buf.remaining());
         buf.put_slice(a);
         std::task::Poll::Ready(Ok(()))
@@ -284,7 +312,8 @@ fn exec(out: &mut Out, world: &mut World, line: &str, rtm: &tokio::runtime::Runt
                             for _ in 0..40 {
                                 let n = m.serialized_len() + m.is_error() as usize + m.error_code().is_some() as usize + m.query_utf8().len() + m.body_utf8().len()
                                     + m.query_str().is_ok() as usize + m.error_message_utf8().map(|x| x.len()).unwrap_or(0) + format!("{:?}", m.header).len()
-                                    + (m.header == m.header.clone()) as usize + m.header.encode().len();
+                                    + (m.header == m.header.clone()) as usize + m.header.encode().len()
+                                    + MessageView { header: m.header, query: &m.query, body: &m.body }.query_str().is_ok() as usize;
                                 seen.fetch_add(n as u64, std::sync::atomic::Ordering::Relaxed);
                             }
                         });
@@ -469,6 +498,28 @@ fn exec(out: &mut Out, world: &mut World, line: &str, rtm: &tokio::runtime::Runt
             }
             out.count("wire.build");
             (format!("{} {}", idx, hex(&v)), true)
+        }
+        "bodyfmt" => {
+            // bodyfmt <idx> <which: utf8|json|beve> <id> <query> <json value> <expected body, serialised by the harness>:
+            // the builder's serialising body setters set body AND format code (Utf8 3 / Json 2 / Beve 1)
+            let ops = vec![line.to_string()];
+            let which = w[2];
+            let id: u64 = w[3].parse().unwrap();
+            let q = unhex(w[4]).unwrap();
+            let value: serde_json::Value = serde_json::from_str(&String::from_utf8(unhex(w[5]).unwrap()).unwrap()).unwrap();
+            let body = unhex(w[6]).unwrap();
+            let bld = Message::builder().id(id).query_format_code(1).query_bytes(q.clone());
+            let (m, bf) = match which {
+                "utf8" => (bld.body_utf8(std::str::from_utf8(&body).expect("utf8 body")).build(), 3u16),
+                "json" => (bld.body_json(&value).expect("json").build(), 2),
+                _ => (bld.body_beve(&value).expect("beve").build(), 1),
+            };
+            let want = RawFrame::request(id, false, 1, &q, bf, &body).to_vec();
+            if m.to_vec() != want {
+                out.oracle_fail(&format!("wire.bodyfmt.{}", which), "builder body setter: the frame is not header(format code of the setter) + query + the serialised value", &ops);
+            }
+            out.count(&format!("wire.bodyfmt.{}", which));
+            (format!("{} {}", idx, hex(&m.to_vec())), true)
         }
         "sink" => {
             // everything the persistent sinks received since the last `sink`: exactly the frames, in order
@@ -670,18 +721,29 @@ fn exec(out: &mut Out, world: &mut World, line: &str, rtm: &tokio::runtime::Runt
             let frag = parse_frag(Some(w[3]));
             // a stream token `p<k>:<hex>`: the stream's own read() panics when asked for byte k (the unwind passes through the
             // reader; the buffer is then reused for the next stream)
-            let streams: Vec<(Option<usize>, Vec<u8>)> = w[4..].iter().map(|x| match x.strip_prefix('p').and_then(|t| t.split_once(':')) {
-                Some((k, h)) => (k.parse().ok(), unhex(h).unwrap()),
-                None => (None, unhex(x).unwrap()),
+            // `e<k>.<kind>:<hex>`: the stream's read() fails once with that io::ErrorKind when asked for byte k
+            let mut injected: Vec<Option<(usize, std::io::ErrorKind, String)>> = Vec::new();
+            let streams: Vec<(Option<usize>, Vec<u8>)> = w[4..].iter().map(|x| {
+                if let Some((spec, h)) = x.strip_prefix('e').and_then(|t| t.split_once(':')) {
+                    let sp = parse_frag(Some(&format!("e{}", spec)));
+                    injected.push(sp.err_at.map(|(k, kd)| (k, kd, spec.split_once('.').map(|p| p.1.to_string()).unwrap_or_default())));
+                    return (None, unhex(h).unwrap());
+                }
+                injected.push(None);
+                match x.strip_prefix('p').and_then(|t| t.split_once(':')) {
+                    Some((k, h)) => (k.parse().ok(), unhex(h).unwrap()),
+                    None => (None, unhex(x).unwrap()),
+                }
             }).collect();
             let ops = vec![line.to_string()];
             let r = catch(|| {
                 let mut buf: Vec<u8> = Vec::with_capacity(17);
                 buf.extend_from_slice(b"stale-bytes-from-an-earlier-use");
                 let mut per: Vec<(Vec<Vec<u8>>, String)> = Vec::new();
-                for (panic_at, sbytes) in &streams {
+                for (si, (panic_at, sbytes)) in streams.iter().enumerate() {
                     let mut spec = frag.clone();
                     spec.panic_at = *panic_at;
+                    spec.err_at = injected[si].as_ref().map(|(k, kd, _)| (*k, *kd));
                     let mut cur = FragReader::new(sbytes, &spec);
                     let mut frames: Vec<Vec<u8>> = Vec::new();
                     let end = loop {
@@ -713,7 +775,14 @@ fn exec(out: &mut Out, world: &mut World, line: &str, rtm: &tokio::runtime::Runt
                 Ok(per) => {
                     let mut shown = Vec::new();
                     for (i, (frames, end)) in per.iter().enumerate() {
-                        let visible = match streams[i].0 { Some(k) => &streams[i].1[..k.min(streams[i].1.len())], None => &streams[i].1[..] };
+                        // an injected error other than Interrupted ends the reading at its offset; Interrupted may be retried (the blocking
+                        // helper does, like Read::read_exact) or reported: both the whole stream and its cut are admissible
+                        let cut_at = match (&injected[i], streams[i].0) { (Some((k, _, _)), _) => Some(*k), (None, pk) => pk };
+                        let visible = match cut_at { Some(k) => &streams[i].1[..k.min(streams[i].1.len())], None => &streams[i].1[..] };
+                        if let Some((_, kd, _)) = &injected[i] {
+                            let whole: Vec<Vec<u8>> = RawFrame::split_stream(&streams[i].1).0.iter().map(|f| f.to_vec()).collect();
+                            if *kd == std::io::ErrorKind::Interrupted && *frames == whole { continue_ok(&mut shown, frames, end); continue; }
+                        }
                         let (want, _) = RawFrame::split_stream(visible);
                         let want: Vec<Vec<u8>> = want.iter().map(|f| f.to_vec()).collect();
                         if *frames != want {
@@ -835,6 +904,11 @@ fn exec(out: &mut Out, world: &mut World, line: &str, rtm: &tokio::runtime::Runt
         }
         other => panic!("unknown op {}", other),
     }
+}
+
+fn continue_ok(shown: &mut Vec<String>, frames: &[Vec<u8>], end: &str) {
+    let fs: Vec<String> = frames.iter().map(|f| format!("{}:{:016x}", f.len(), fnv(f))).collect();
+    shown.push(format!("n={} [{}] end={}", frames.len(), fs.join(","), end));
 }
 
 /// Direct oracle for C02, independent of the model: no panic; success iff the independent parser
@@ -1011,6 +1085,9 @@ fn gen_aux(r: &mut Rng, ops: &mut Vec<String>, i: usize, h: &RawHeader, q: &[u8]
     };
     let rqf = *r.pick(&[0u16, 1, 1, 2, 4095, 65535]);
     ops.push(format!("resp {}r {} {} {} {} {} {}", i, r.boundary(64), rqf, hex(&gen_query(r)), bf, hex(&body), hex(serde_json::to_string(&value).unwrap().as_bytes())));
+    let which = *r.pick(&["utf8", "json", "beve"]);
+    let fbody = match which { "utf8" => gen_text(r).into_bytes(), "json" => serde_json::to_vec(&value).unwrap(), _ => beve::to_vec(&value).unwrap() };
+    ops.push(format!("bodyfmt {}f {} {} {} {} {}", i, which, r.boundary(64), hex(&gen_query(r)), hex(serde_json::to_string(&value).unwrap().as_bytes()), hex(&fbody)));
     // documented twins: slice writers
     let kind = *r.pick(&["f64", "i32", "u8", "c32"]);
     let unit = match kind { "f64" | "c32" => 8, "i32" => 4, _ => 1 };
@@ -1085,6 +1162,27 @@ fn gen_cuts(r: &mut Rng, base: usize, ql: usize, bl: usize) -> String {
     format!("c{}", pts.iter().map(|x| x.to_string()).collect::<Vec<_>>().join("."))
 }
 
+/// class p: every io::ErrorKind handed INTO the four readers by the stream, once, at a random offset of a stream of valid
+/// frames; then the same buffer on a clean stream.  The reader returns an error (or, for Interrupted, may go on as if nothing
+/// happened): never a frame that is not on the stream, never a panic.
+fn gen_io_errors(r: &mut Rng, tag: &str) -> Vec<String> {
+    let mut ops = Vec::new();
+    for (i, (name, _)) in IO_KINDS.iter().enumerate() {
+        let mut stream = Vec::new();
+        for j in 0..r.range(1, 3) {
+            let (ql, bl) = (r.below(20) as usize, r.below(400) as usize);
+            let (q, b) = (r.bytes(ql), r.bytes(bl));
+            stream.extend(RawFrame::request(j + 1, false, 1, &q, 2, &b).to_vec());
+        }
+        let k = r.below(stream.len() as u64) as usize;
+        let clean = RawFrame::request(9, false, 1, b"/after", 2, b"clean").to_vec();
+        for kind in 0..4 {
+            ops.push(format!("readm {}{}k{} {} {} e{}.{}:{} {}", tag, i, kind, kind, *r.pick(&[0usize, 1, 7, 48]), k, name, hex(&stream), hex(&clean)));
+        }
+    }
+    ops
+}
+
 /// class g for the readers: N identical frames back to back (header-only "keep-alives", small, medium) through one reader
 /// and one reused buffer; class i: the same with 2–3-piece delivery.
 fn gen_runs(r: &mut Rng, runs: &[usize], tag: &str) -> Vec<String> {
@@ -1140,6 +1238,16 @@ fn gen_parse_inputs(r: &mut Rng, n: usize) -> Vec<Vec<u8>> {
     v.push(f2.encode().to_vec());
     let f3 = RawHeader { length: 48u64.wrapping_add(1 << 63), spec: 0x1507, version: 1, body_length: 1 << 63, ..Default::default() };
     v.push(f3.encode().to_vec());
+    // class r: the "too long" classes have siblings that EXIST at that length — valid frames of 4 KiB, 8 KiB ± 1, 64 KiB ± 1
+    // (thorough: 1 MiB) through every entry point, whole and with one byte missing / one byte extra
+    for &total in if n > 10_000 { &[4096usize, 8191, 8192, 8193, 65535, 65536, 65537, 1 << 20][..] } else { &[4096usize, 8192, 8193, 65536][..] } {
+        let ql = *r.pick(&[0usize, 5, 300]);
+        let (q, b) = (r.bytes(ql), r.bytes(total - 48 - ql));
+        let f = RawFrame::request(r.next(), false, 1, &q, 2, &b).to_vec();
+        v.push(f.clone());
+        v.push(f[..f.len() - 1].to_vec());
+        let mut g = f; g.push(0); v.push(g);
+    }
     for i in 0..n {
         let valid = {
             let q = { let l = r.below(20) as usize; r.bytes(l) };
@@ -1282,6 +1390,7 @@ fn gen_parse(r: &mut Rng, n: usize, truncation_sweeps: usize) -> Vec<String> {
     drop(push);
     ops.extend(gen_readm(r, (n / 40).max(12), "pm"));
     ops.extend(gen_runs(r, if n > 10_000 { RUNS_THOROUGH } else { RUNS_QUICK }, "pr"));
+    ops.extend(gen_io_errors(r, "pe"));
     ops
 }
 
@@ -1377,7 +1486,9 @@ fn ask_ping(addr: std::net::SocketAddr, ping: &[u8]) -> bool {
 /// timeout may legitimately drop a connection whose first bytes arrive late (this process descheduled between connect and
 /// write), so there a few fresh connections are tried — the statement is about the endpoint, not about one connection.
 fn still_serves(addr: std::net::SocketAddr, has_read_timeout: bool, ping: &[u8]) -> bool {
-    for _ in 0..(if has_read_timeout { 6 } else { 1 }) {
+    // (a machine with a load average of 70 and a one-worker runtime can take seconds to answer: two tries even without a timeout knob)
+    for _ in 0..(if has_read_timeout { 6 } else { 2 }) {
+        HEARTBEAT.fetch_add(1, std::sync::atomic::Ordering::Relaxed);
         if ask_ping(addr, ping) { return true; }
     }
     false
@@ -1504,6 +1615,7 @@ fn exec_net(out: &mut Out, w: &NetWorld, line: &str) -> (String, bool) {
         } else {
             let (addr, has_rt) = tcp_ep(w, ep);
             for _ in 0..n {
+                HEARTBEAT.fetch_add(1, std::sync::atomic::Ordering::Relaxed);
                 if let Ok(mut s) = std::net::TcpStream::connect(addr) {
                     let _ = s.write_all(&bs);
                     let _ = s.shutdown(std::net::Shutdown::Write);
@@ -1586,9 +1698,16 @@ fn exec_net(out: &mut Out, w: &NetWorld, line: &str) -> (String, bool) {
                 let _ = s.shutdown(std::net::Shutdown::Write);
                 let _ = s.set_read_timeout(Some(t));
                 let mut sink = [0u8; 4096];
+                let mut said = Vec::new();
                 let t0 = std::time::Instant::now();
                 while t0.elapsed() < t {
-                    match s.read(&mut sink) { Ok(0) | Err(_) => break, Ok(_) => {} }
+                    match s.read(&mut sink) { Ok(0) | Err(_) => break, Ok(n) => said.extend_from_slice(&sink[..n]) }
+                }
+                // class u: whatever the server says on this (error) path is made of whole canonical frames (C01's clause on
+                // somebody else's path); which error it reports is not judged here
+                let (_, tail) = RawFrame::split_stream(&said);
+                if tail.len() >= 48 && !RawHeader::parse(&tail).map(|h| h.consistent()).unwrap_or(false) {
+                    out.oracle_fail(&format!("parse.net.{}.emitted_inconsistent_frame", ep), "bytes the server sent back on an error path are not a sequence of consistent frames", &[line.to_string()]);
                 }
             }
             // the server must still answer a fresh connection
@@ -1597,6 +1716,7 @@ fn exec_net(out: &mut Out, w: &NetWorld, line: &str) -> (String, bool) {
         "ws" => {
             let url = format!("ws://{}/repe", w.ws);
             let mut served_inexact = false;
+            let mut emitted_bad = false;
             alive = w.rt.block_on(async {
                 if let Ok((mut c, _)) = tokio_tungstenite::connect_async(&url).await {
                     if pre {
@@ -1606,6 +1726,8 @@ fn exec_net(out: &mut Out, w: &NetWorld, line: &str) -> (String, bool) {
                     let _ = c.send(WsMsg::Binary(bs.clone())).await;
                     let inexact = !matches!(RawFrame::parse_prefix(&bs), Some((_, n)) if n == bs.len());
                     if let Ok(Some(Ok(WsMsg::Binary(b)))) = tokio::time::timeout(t, c.next()).await {
+                        // class u: an error reply is itself exactly one consistent frame
+                        if !matches!(RawFrame::parse_prefix(&b), Some((_, n)) if n == b.len()) { emitted_bad = true; }
                         // a WebSocket message that is not exactly one consistent frame must not be answered as a request
                         if inexact && RawFrame::parse_prefix(&b).map(|(f, _)| f.h.ec == 0).unwrap_or(false) {
                             served_inexact = true;
@@ -1619,6 +1741,9 @@ fn exec_net(out: &mut Out, w: &NetWorld, line: &str) -> (String, bool) {
                     _ => false,
                 }
             });
+            if emitted_bad {
+                out.oracle_fail("parse.net.ws.emitted_inconsistent_frame", "the WebSocket server's reply on an error path is not exactly one consistent frame", &[line.to_string()]);
+            }
             if served_inexact {
                 out.oracle_fail("parse.net.ws.served_inexact_message", "the WebSocket server answered (ec 0) a binary message that is not exactly one consistent frame", &[line.to_string()]);
             }
@@ -2067,7 +2192,8 @@ fn gen_net2(r: &mut Rng, thorough: bool) -> Vec<String> {
 }
 
 fn gen_net(r: &mut Rng, n: usize) -> Vec<String> {
-    let inputs = gen_parse_inputs(r, n);
+    // (the large valid siblings of gen_parse_inputs go to the functions only; the endpoints get sized requests of their own)
+    let inputs: Vec<Vec<u8>> = gen_parse_inputs(r, n).into_iter().filter(|b| b.len() <= 5000).collect();
     let eps = ["tcp", "atcp", "ws", "client", "aclient", "wsclient", "wsproxy"];
     let mut ops: Vec<String> = inputs.iter().enumerate().map(|(i, bs)| format!("net n{} {} {} {}", i, eps[i % eps.len()], hex(bs), r.below(2))).collect();
     for i in 0..(n / 40).max(4) {
@@ -2120,6 +2246,94 @@ fn fixture_ops(out: &mut Out) -> Vec<String> {
 // EINTR inside a response frame (child process: signals are process-wide, so this runs in a process of its own whose only
 // thread able to take the signal is the blocking Client's reader thread)
 // ------------------------------------------------------------------------------------------
+// ------------------------------------------------------------------------------------------
+// (n) which public entry points of the anchored files these two families drive
+// ------------------------------------------------------------------------------------------
+const DRIVEN: &[(&str, &[&str])] = &[
+    ("header.rs", &["new", "encode", "decode"]),
+    ("message.rs", &["new", "builder", "to_vec", "serialized_len", "write_to", "into_wire_bytes", "from_slice", "from_slice_exact", "is_error", "error_code",
+        "error_message_utf8", "query_utf8", "query_str", "body_utf8", "to_message", "id", "notify", "query_format", "query_format_code", "body_format",
+        "body_format_code", "query_bytes", "body_bytes", "body_json", "body_beve", "body_typed_slice", "body_complex_slice", "build",
+        "body_utf8", "create_error_message", "create_error_response_like", "create_response"]),
+    ("io.rs", &["read_message", "read_message_into", "write_message", "write_message_streaming", "write_message_typed_slice", "write_message_complex_slice"]),
+    ("async_io.rs", &["read_message_async", "read_message_into_async", "write_message_async"]),
+];
+/// Not driven here, because: body decoders (the BEVE / JSON payload is C08's and C03's subject, no framing involved);
+/// `body_aligned_typed_slice` is driven by the emit family (aligned client calls) and by C08.
+const NOT_DRIVEN_BECAUSE: &[(&str, &str)] = &[
+    ("json_body", "body decoding, no framing (C03/C08)"), ("beve_body", "body decoding, no framing (C08)"),
+    ("decode_typed_slice", "body decoding (C08)"), ("decode_complex_slice", "body decoding (C08)"),
+    ("body_aligned_typed_slice", "driven by fam_emit (aligned client calls) and C08"),
+];
+
+fn source_fn_names(file: &str) -> Vec<String> {
+    let repo = std::env::var("VERIF_REPO").unwrap_or_else(|_| "/repo".into());
+    let text = std::fs::read_to_string(std::path::Path::new(&repo).join("src").join(file)).unwrap_or_default();
+    // message.rs has public code after its test module: drop only the lines of `mod tests { … }`
+    let mut names = Vec::new();
+    let mut in_tests = false;
+    for line in text.lines() {
+        if line.starts_with("mod tests") || line.starts_with("#[cfg(test)]") { in_tests = true; }
+        if in_tests { if line == "}" { in_tests = false; } continue; }
+        let t = line.trim_start();
+        for pre in ["pub async fn ", "pub fn "] {
+            if let Some(rest) = t.strip_prefix(pre) {
+                let name: String = rest.chars().take_while(|c| c.is_alphanumeric() || *c == '_').collect();
+                if !name.is_empty() && !names.contains(&name) { names.push(name); }
+            }
+        }
+    }
+    names
+}
+
+fn entry_point_audit(out: &mut Out) -> Vec<String> {
+    let mut missing = Vec::new();
+    for (file, driven) in DRIVEN {
+        for name in source_fn_names(file) {
+            if !driven.contains(&name.as_str()) && !NOT_DRIVEN_BECAUSE.iter().any(|(n, _)| *n == name) {
+                out.count(&format!("wire.NOT_DRIVEN.{}.{}", file, name));
+                missing.push(format!("{}::{}", file, name));
+            }
+        }
+    }
+    out.extra.insert("not_driven".into(), serde_json::json!(missing));
+    out.extra.insert("not_driven_because".into(), serde_json::json!(NOT_DRIVEN_BECAUSE.iter().map(|(n, w)| format!("{}: {}", n, w)).collect::<Vec<_>>()));
+    missing
+}
+
+// ------------------------------------------------------------------------------------------
+// (o) liveness of the harness on a broken tree: every op bumps a heartbeat; if the op in progress makes no progress for
+// longer than any bound the harness itself waits for, the call into the code under test never returned — that is recorded
+// as an oracle failure with the op, and the process ends (an in-process call cannot be abandoned).
+// ------------------------------------------------------------------------------------------
+static HEARTBEAT: std::sync::atomic::AtomicU64 = std::sync::atomic::AtomicU64::new(0);
+static CURRENT_OP: std::sync::Mutex<String> = std::sync::Mutex::new(String::new());
+
+fn start_watchdog(dir: std::path::PathBuf, family: String, limit: std::time::Duration) {
+    std::thread::spawn(move || {
+        let mut last = (0u64, std::time::Instant::now());
+        loop {
+            std::thread::sleep(std::time::Duration::from_millis(500));
+            let hb = HEARTBEAT.load(std::sync::atomic::Ordering::Relaxed);
+            if hb != last.0 { last = (hb, std::time::Instant::now()); continue; }
+            if hb > 0 && last.1.elapsed() > limit {
+                let op = CURRENT_OP.lock().map(|g| g.clone()).unwrap_or_default();
+                let what = op.split(' ').next().unwrap_or("op").to_string();
+                let v = serde_json::json!({"sig": format!("{}.{}.call_never_returned", family, what),
+                    "detail": format!("a call into the code under test did not return within {} s (every wait of the harness itself is shorter): hang", limit.as_secs()),
+                    "ops": [op]});
+                use std::io::Write;
+                if let Ok(mut f) = std::fs::OpenOptions::new().append(true).create(true).open(dir.join("oracle.txt")) {
+                    let _ = writeln!(f, "{}", v);
+                }
+                let _ = std::fs::write(dir.join("stats.json"), serde_json::json!({"evaluations": hb, "distinct_nontrivial": 0, "distinct": 0, "oracle_failures": 1,
+                    "rule": "stopped by the harness watchdog: a call never returned", "distribution": {}, "samples": [], "extra": {}}).to_string());
+                std::process::exit(3);
+            }
+        }
+    });
+}
+
 extern "C" fn eintr_noop(_: libc::c_int) {}
 
 fn block_sigusr1() {
@@ -2234,6 +2448,18 @@ fn main() {
         ops.extend(gen_net(&mut rng, if args.thorough() { 1800 } else { 240 }));
         ops
     };
+    if std::env::args().any(|a| a == "--check-entry-points") {
+        let missing = entry_point_audit(&mut out);
+        println!("entry points of header.rs / message.rs / io.rs / async_io.rs not driven by the wire and parse families: {:?}", missing);
+        std::process::exit(if missing.is_empty() { 0 } else { 1 });
+    }
+    let missing = entry_point_audit(&mut out);
+    if !missing.is_empty() {
+        eprintln!("fam_wire: public entry points NOT DRIVEN (add them to DRIVEN or NOT_DRIVEN_BECAUSE): {:?}", missing);
+    }
+    // longest wait of the harness itself: 10 s reads + 4 × 11 s background stalls are not on this thread; a foreground op waits
+    // at most ~25 s (six pings of 10 s would be a dead endpoint, reported as such) — 60 s without a heartbeat is a hang
+    start_watchdog(args.out.clone(), family.clone(), std::time::Duration::from_secs(if args.thorough() { 120 } else { 60 }));
     let mut world: Option<NetWorld> = None;
     let mut world_state = World::new();
     // class l: odd seeds run the async endpoints on a runtime with one worker and one blocking-pool thread
@@ -2245,6 +2471,8 @@ fn main() {
             break;
         }
         out.begin(&line);
+        HEARTBEAT.fetch_add(1, std::sync::atomic::Ordering::Relaxed);
+        if let Ok(mut g) = CURRENT_OP.lock() { g.clear(); g.push_str(&line[..line.len().min(200_000)]); }
         if line.starts_with("net ") {
             let w = world.get_or_insert_with(|| net_world(lean_runtime));
             let (obs, nt) = exec_net(&mut out, w, &line);
